@@ -261,6 +261,12 @@ def parseMember (shared : List (Nat × String)) (code0 : String) (c : Ctx) : Opt
   else if two == "fa" then
     (rest2.toNat?).map fun k =>
       (some (.trait { dvt := Generated.CALLABLE_AND_ARGS_DEFAULT_VALUE, dv := some (factoryBase + k) }), c)
+  else if two == "tl" then
+    -- legacy `Trait(list)`: a per-object copy of the empty list; accepts lists only
+    copyKind Generated.LIST_COPY_DEFAULT_VALUE (some 0) ""
+  else if two == "td" then
+    -- legacy `Trait(dict)`: a per-object copy of the empty dict; accepts dicts only
+    copyKind Generated.DICT_COPY_DEFAULT_VALUE (some 0) ""
   else if two == "pa" then
     -- Any(factory=F[k]) with a `post_setattr` hook (post number 0: raises at the call ordinals of the header's P=)
     (rest2.toNat?).map fun k =>
